@@ -2,6 +2,7 @@ package harness
 
 import (
 	"context"
+	"errors"
 	"fmt"
 	"sync/atomic"
 	"testing"
@@ -45,6 +46,9 @@ func genWCfg(r *Rng, kinds []string) WCfg {
 	if (via == "config" || via == "config-default-order" || via == "lifo" || via == "fifo") && r.Bool(12) {
 		// a non-positive backlog size asks for the default bound (100) - and for nothing else: ordering, timeout and eviction stay as configured
 		c.RawB, c.MaxB = r.Pick(-1, -7), 100
+	}
+	if c.Kind == 3 && r.Bool(30) {
+		c.Shared = true // e.g. a batch client that passes its own long-lived context to every call
 	}
 	switch via {
 	case "pool", "fixedpool":
@@ -108,7 +112,7 @@ func driveWaiters(t *testing.T, prop string, vias []string, nCases, steps int, o
 					}
 					return &wOp{2, []int64{int64(hs[r.Intn(len(hs))]), r.Pick(0, 1, 2)}}
 				case k < weights[0]+weights[1]+weights[2]:
-					if len(w.Callers) == 0 {
+					if len(w.Callers) == 0 || cfg.Shared {
 						continue
 					}
 					return &wOp{3, []int64{int64(r.Intn(len(w.Callers)))}}
@@ -153,7 +157,15 @@ func driveWaiters(t *testing.T, prop string, vias []string, nCases, steps int, o
 			}
 			oracle(rep, w, op, before, granted, fail)
 		}
-		if _, err := RunScenario(t, cfg, tr, gen, after, steps); err != nil {
+		if _, err := RunScenario(t, cfg, tr, gen, after, steps); err == ErrStuck {
+			fail("scenario-does-not-come-to-rest", "two minutes after the last operation the limiter's goroutines have still not come to rest (a caller is spinning or stuck on a lock): no caller can be answered any more")
+			tr.End()
+			return // the stuck goroutines keep running: stop this driver here
+		} else if errors.Is(err, ErrBlocked) {
+			fail("callers-blocked-for-ever", fmt.Sprintf("the scenario cannot finish: %v (every holder has released and every context is cancelled, yet callers of the limiter are still blocked with no timer pending)", err))
+			tr.End()
+			return
+		} else if err != nil {
 			rep.Count("constructor-error")
 		}
 		if ci < 2 {
@@ -296,6 +308,13 @@ func TestC12(t *testing.T) {
 		if op.Op == 1 {
 			i := len(w.Callers) - 1
 			c := w.Callers[i]
+			if op.Args[0] == 0 && before[0] < strategyLimitOr(w) {
+				// a token is free: the caller gets it at once, however full the backlog is (the bound is about callers that would have to wait)
+				rep.Distinct("arrival-with-token-free", fmt.Sprint(w.Cfg.Via, before[0], before[1] >= w.Cfg.MaxB))
+				if c.status != 1 || c.t != c.arrival {
+					fail("refused-with-capacity-free", fmt.Sprintf("arrival with %d/%d tokens held and %d callers in the backlog (bound %d): status %d at +%d ns", before[0], strategyLimitOr(w), before[1], w.Cfg.MaxB, c.status, c.t-c.arrival))
+				}
+			}
 			if before[1] >= w.Cfg.MaxB && before[0] >= strategyLimitOr(w) {
 				rep.Distinct("arrival-at-full-backlog", fmt.Sprint(w.Cfg.Via, w.Cfg.MaxB, before[0], before[1]))
 				if c.status != 2 || c.t != c.arrival {
@@ -565,7 +584,15 @@ func TestC19(t *testing.T) {
 				}
 			}
 		}
-		if _, err := RunScenario(t, cfg, tr, gen, after, 200); err != nil {
+		if _, err := RunScenario(t, cfg, tr, gen, after, 200); err == ErrStuck {
+			fail("scenario-does-not-come-to-rest", "two minutes after the last operation the pool's goroutines have still not come to rest (a caller is spinning or stuck on a lock)")
+			tr.End()
+			return
+		} else if errors.Is(err, ErrBlocked) {
+			fail("callers-blocked-for-ever", fmt.Sprintf("the scenario cannot finish: %v", err))
+			tr.End()
+			return
+		} else if err != nil {
 			rep.Count("constructor-error")
 			continue
 		}
